@@ -54,6 +54,7 @@ def apply_edit(b, edit):
         b.held["c_fcons"] = c
     elif edit == "block":        # one more point is decomposed by the partition after a solve
         b.held["blk_d"] = b.part.get_block(b.held["d"], 0)
+        b.part_blocks.append([b.part.get_block(b.held["d"], k) for k in range(2)])
     elif edit == "infeasible":   # makes the model infeasible
         c = ((x - x0) ** 2 <= -1)
         pep.add_constraint(c)
@@ -160,7 +161,7 @@ def run(item):
                 out["note"] = "inconclusive:solver-gave-up(%s)" % ",".join(statuses)
                 break
             try:
-                obs = pepsolve.observe(b.pep, None, b.held, with_native=False, user_decl=b.user_decl)
+                obs = pepsolve.observe(b.pep, None, b.held, with_native=False, user_decl=b.user_decl, part_blocks=b.part_blocks)
             except Exception:
                 out["note"] = "raises:" + crash
                 break
@@ -182,7 +183,7 @@ def run(item):
         first_ok = ret is not None and len(out["solves"]) == 0 and len(item["solves"]) == 1
         if ret is not None:
             post_objects(b, len(out["solves"]) + 1)
-        obs = pepsolve.observe(b.pep, ret, b.held, user_decl=b.user_decl)
+        obs = pepsolve.observe(b.pep, ret, b.held, user_decl=b.user_decl, part_blocks=b.part_blocks)
         obs["postleaf"] = postleaf_objects(b) if first_ok else []
         obs["opts"] = dict(wrapper=kw["wrapper"], mode=kw["return_primal_or_dual"], heur=heur,
                            tol=pepsolve.fx(opts.get("tol", 1e-4)), solver=kw["solver"], verbose=kw["verbose"])
